@@ -95,5 +95,10 @@ def failure_key(f):
     if k == "final":
         return "final:%s" % ev.get("outcome")
     if k == "ch_drawn":
+        for e in reversed(f.get("prefix", [])[:-1]):
+            if e.get("i") == ev.get("i") and e.get("ev") == "fatal_fired":
+                return "unrecoverable_error_swallowed_by_draw"
+            if e.get("i") == ev.get("i") and e.get("ev") in ("ch_check", "ch_recorded"):
+                break
         return "draw_differs_from_sequential_run"
     return "unexplained:%s" % k
